@@ -735,6 +735,21 @@ impl<'a, 'b, 'ast> Visit<'ast> for Rewriter<'a, 'b> {
                 if done {
                     return;
                 }
+                // R14: X.unwrap_or_else(|| BODY)  ->  match X { Some(v) => v, None => BODY }  (closure without parameters:
+                // evaluated exactly when X is None - the definition of Option::unwrap_or_else)
+                if name == "unwrap_or_else" && mc.args.len() == 1 {
+                    if let Some(c) = self.closure_of(&mc.args[0]) {
+                        if c.inputs.is_empty() && matches!(&*mc.receiver, Expr::Path(_)) {
+                            let (elo, ehi) = self.fx.rng(mc.span());
+                            let (blo, bhi) = self.fx.rng(c.body.span());
+                            let recv_txt = self.fx.text(mc.receiver.span()).to_string();
+                            self.edit(elo, blo, format!("match {} {{ Some(v__uoe) => v__uoe, None => ", recv_txt), "R14");
+                            self.edit(bhi, ehi, " }".to_string(), "R14");
+                            self.visit_expr(&c.body);
+                            return;
+                        }
+                    }
+                }
                 // R8: X.get(A..B).unwrap_or_default()  ->  slice_get_or_empty(&(X), A, B)
                 if name == "unwrap_or_default" && mc.args.is_empty() {
                     if let Expr::MethodCall(g) = &*mc.receiver {
@@ -808,6 +823,11 @@ impl<'a, 'b, 'ast> Visit<'ast> for Rewriter<'a, 'b> {
                             let ty = norm_ws(self.fx.text(q.ty.span()));
                             self.edit(lo, hi, format!("digest_shim::<{}, _>", ty), "R3");
                         }
+                    }
+                    if self.fx.ops && ps == "String::from" && c.args.len() == 1 && matches!(&c.args[0], Expr::Lit(_)) {
+                        // R9: String::from("lit") -> string_from_lit("lit") (shim: the result's view is the literal's view)
+                        let (lo, hi) = self.fx.rng(p.span());
+                        self.edit(lo, hi, "string_from_lit".to_string(), "R9");
                     }
                     if self.fx.ops && ps == "Integer::from" {
                         let (lo, hi) = self.fx.rng(c.func.span());
